@@ -14,8 +14,9 @@ CLAIMED = {
             "TLC 1.8; harness/proj.py (reads decomposition_dict only); dyadic scalars so PEPit's float arithmetic is exact.",
             "6.6"),
     "C07": ("TLC model checking of spec/Oracle.tla (code-path transcription of PEPit/function.py oracle bookkeeping; "
-            "invariants I1-I4; deviation switches reproduce the repaired defects as counterexamples) + replay of every "
-            "TLC behaviour on real Function objects + TLC trace validation of the observed tables (OracleTrace.tla)",
+            "invariants I1-I4, I6; deviation switches reproduce the repaired defects as counterexamples) and of "
+            "spec/OracleAlg.tla (functions built by the behaviour with the DSL operators) + replay of every TLC behaviour on "
+            "real Function objects + TLC trace validation of the observed tables (OracleTrace.tla, OracleAlgTrace.tla)",
             "All call sequences of bounded length over leaf and composite functions (zero, cancelling and fractional "
             "weights, equal decompositions as distinct objects) are enumerated by TLC, executed on the real classes, and "
             "the invariants are evaluated by TLC on the observed sample tables after every call; the observed step is "
@@ -55,7 +56,10 @@ CLAIMED = {
     "C05": ("TLC model checking of spec/Pep.tla (sent list and native layout) + real solves + TLC trace validation that the "
             "bag sent equals the declared sources and that every natively probed cvxpy row denotes its symbolic expression",
             "The native cvxpy problem is probed independently of PEPit's translation code (variables set to zero / basis "
-            "elements) and compared row by row, sense by sense, by TLC with the normal forms read from the DSL objects.",
+            "elements) and compared row by row, sense by sense, by TLC with the normal forms read from the DSL objects; what "
+            "the user declared is recorded at declaration time (class-level wrappers of the public API) and must be sent as "
+            "often as declared with the entries as written; every third program is also formulated through the real "
+            "MosekWrapper on the stand-in (sparse encoding).",
             "TLC 1.8; cvxpy expression evaluation used for probing; MOSEK-side encoding is covered by C11 on a stand-in.",
             "6.5"),
     "C08": ("TLC model checking of spec/Steps.tla (documented post-conditions of the 8 primitive steps, all options) + replay "
@@ -93,9 +97,11 @@ CLAIMED = {
             "6.12"),
     "C13": ("TLC model checking of spec/Pep.tla (epochs, caches, accumulation switches) + real solve/edit/evaluate sequences "
             "+ TLC trace validation across consecutive solves (SolveTrace.tla)",
-            "Sequences of solves interleaved with edits and evaluations are enumerated by TLC, run on the real library, and "
-            "TLC compares what is sent at consecutive solves, recomputes every held value from the latest leaf values and "
-            "re-checks the certificate of every solve.",
+            "Sequences of solves interleaved with edits (initial condition, metric, LMI, one more step, more blocks, adjoint "
+            "sample, first function constraint, infeasible / feasible again) and evaluations are enumerated by TLC, run on the "
+            "real library, and TLC compares what is sent at consecutive solves, recomputes every held value (and objects "
+            "built after each solve) from the latest leaf values, re-checks the certificate of every solve, and compares the "
+            "last solve with a newly built equivalent model.",
             "TLC 1.8; cvxpy+CLARABEL tolerance.",
             "6.13"),
     "C14": ("real heuristic solves of programs exported by spec/Pep.tla under recording wrappers + TLC trace validation of the "
@@ -107,8 +113,9 @@ CLAIMED = {
             "6.14"),
     "C15": ("TLC model checking of spec/Partition.tla (get_block state machine; real coordinate partitions of Z^3 validate the "
             "spec) + replay of every call sequence on the real BlockPartition + TLC trace validation (PartitionTrace.tla)",
-            "All get_block call sequences (d <= 3, 4 held points, repeated and invalid block numbers) are replayed; TLC checks "
-            "on the observed blocks and solve-time constraints: blocks sum to the point, repetition returns the same object, "
+            "All get_block call sequences (d <= 3, 4 held points, repeated and invalid block numbers, an intermediate solve, "
+            "both ways of creating a partition, a second partition of the same size) are replayed around REAL solves; TLC "
+            "checks on the observed blocks and on the partition constraints that reached the solver: blocks sum to the point, repetition returns the same object, "
             "d = 1 is the identity, the constraint set is exactly the cross-block orthogonality relations, and every "
             "coordinate partition of Z^3 on a grid satisfies the generated constraints when fresh leaves are the projections.",
             "TLC 1.8; harness/drv_c15.py projection.",
